@@ -78,6 +78,27 @@ func runC03(c *Ctx) {
 		// pre-commit part: every path to the call; returns before it are fine by construction.
 		nf := core.RunNilFlow(g, cn, core.VarSet{errVar}, false)
 		exits := postCommitExits(g, nf)
+		// A post-commit call into a same-package helper that is not classified itself is expanded into the helper's own
+		// failing exits (depth 3), so that moving classified post-commit calls into a helper method keeps their keys.
+		for changed, depth := true, 0; changed && depth < 3; depth++ {
+			changed = false
+			for cause, p := range exits {
+				if _, ok := c03Class[fi.Name()+"|post-commit-exit|"+cause]; ok {
+					continue
+				}
+				leaves, ok := c03ExpandCause(c, cause)
+				if !ok {
+					continue
+				}
+				delete(exits, cause)
+				for _, l := range leaves {
+					if _, dup := exits[l]; !dup {
+						exits[l] = p
+					}
+				}
+				changed = true
+			}
+		}
 		var keys []string
 		for k := range exits {
 			keys = append(keys, k)
@@ -102,8 +123,15 @@ func runC03(c *Ctx) {
 		for n, sets := range nf.Reached {
 			if ret, isRet := g.Nodes[n].Ast.(*ast.ReturnStmt); isRet {
 				for _, s := range sets {
-					if mf, _ := g.ReturnMayFail(ret, s); !mf {
+					if mf, e := g.ReturnMayFail(ret, s); !mf {
 						okRet = true
+					} else if e != nil {
+						// `return helper()` where the same-package helper has a nil-error exit
+						if call, ok := ast.Unparen(e).(*ast.CallExpr); ok {
+							if fn := core.Callee(g.Info, call); fn != nil && c03CanSucceed(c, fn) {
+								okRet = true
+							}
+						}
 					}
 				}
 			}
@@ -173,6 +201,56 @@ func postCommitExits(g *core.Graph, nf *core.NilFlow) map[string]tokenPos {
 		}
 	}
 	return out
+}
+
+// c03ExpandCause: for a cause "call:F" with F a function of the root package that returns an error, the causes of F's own
+// possibly-failing returns.
+func c03ExpandCause(c *Ctx, cause string) ([]string, bool) {
+	if !strings.HasPrefix(cause, "call:") {
+		return nil, false
+	}
+	name := strings.TrimPrefix(cause, "call:")
+	var fi *core.FuncInfo
+	for _, f := range c.P.AllFuncs() {
+		if f.Pkg == c.P.Pkg("") && f.Decl.Body != nil && f.Name() == name {
+			fi = f
+		}
+	}
+	if fi == nil {
+		return nil, false
+	}
+	g := c.P.GraphOf(fi)
+	if g == nil || g.Sig() == nil || core.ErrResultIndex(g.Sig()) < 0 {
+		return nil, false
+	}
+	nf := core.RunNilFlow(g, g.Entry, nil, true)
+	m := postCommitExits(g, nf)
+	var out []string
+	for k := range m {
+		out = append(out, k)
+	}
+	sort.Strings(out)
+	return out, len(out) > 0
+}
+
+// c03CanSucceed: a same-package function with an error result that has an exit returning a nil error.
+func c03CanSucceed(c *Ctx, fn *types.Func) bool {
+	fi := c.P.DeclOf(fn)
+	if fi == nil || fi.Decl.Body == nil {
+		return false
+	}
+	g := c.P.GraphOf(fi)
+	nf := core.RunNilFlow(g, g.Entry, nil, true)
+	for n, sets := range nf.Reached {
+		if ret, ok := g.Nodes[n].Ast.(*ast.ReturnStmt); ok {
+			for _, s := range sets {
+				if mf, _ := g.ReturnMayFail(ret, s); !mf {
+					return true
+				}
+			}
+		}
+	}
+	return false
 }
 
 // causesOf names where the returned error comes from: the reaching definitions of the variable, or the expression.
